@@ -51,6 +51,17 @@ type trUnit struct {
 	subst   map[string]string   // source text of an expression over parameters and package variables -> the Lean term it stands for
 	                            // (accessors of an interface value, configuration read from another package)
 	callExt map[string]string   // source text of a callee outside the translated code -> field of Ext that stands for it
+	effects map[string]trEffect // source text of a callee that acts on the world (file operations) -> what is recorded; the operations
+	                            // that succeeded are kept, in order, in the list field `effectField` the translator adds to the receiver's
+	                            // struct `effectOwner`; whether an operation fails is asked of `ext.ioErr` (the history so far, the operation)
+	effectField string
+	effectOwner string
+	effectType  string
+}
+
+type trEffect struct {
+	op  string   // Lean term of the operation; %0, %1, … stand for the translated arguments, %r for the variable a method is called on
+	res []string // Lean terms of the results that precede the error (same placeholders)
 }
 
 var trUnits = []trUnit{
@@ -101,6 +112,23 @@ var trUnits = []trUnit{
 		skip:    []string{"s.mutex.Lock", "s.mutex.Unlock", "s.logServerStats"},
 		subst:   map[string]string{"config.Server.MaxConnections": "ext.maxConnections"},
 		funcs:   []string{"stats.incrementConnections", "stats.decrementConnections", "stats.serverLimitExceeded"}},
+	{ns: "Outfile", pkgDir: "internal/mapr", panics: true,
+		structs: map[string][]string{"GroupSet": {}, "Query": {"RawQuery", "Select", "Limit", "Outfile"}, "selectCondition": {"FieldStorage"},
+			"Outfile": nil, "result": {"values"}},
+		optPtr: []string{"Outfile"},
+		skip:   []string{"fd.Close"},
+		subst: map[string]string{"os.O_CREATE|os.O_WRONLY|os.O_TRUNC": "GoOpenMode.trunc", "os.O_CREATE|os.O_WRONLY|os.O_APPEND": "GoOpenMode.append",
+			"g.result(query, false)": "((ext.rowValues).map (fun v => ({ values := v } : result)), ([] : List Int), (none : GoErr))",
+			"info.Size()": "info.size"},
+		callExt: map[string]string{"os.Stat": "osStat"},
+		effects: map[string]trEffect{
+			"os.OpenFile":    {op: "GoFOp.open %0 %1", res: []string{"%0"}}, // the descriptor is the path it was opened on
+			"fd.WriteString": {op: "GoFOp.write %r %0", res: []string{"(GoLen.len %0)"}},
+			"os.Rename":      {op: "GoFOp.rename %0 %1"},
+			"os.Remove":      {op: "GoFOp.remove %0"}},
+		effectField: "ops", effectOwner: "GroupSet", effectType: "GoFOp",
+		funcs: []string{"Query.HasOutfile", "GroupSet.writeQueryFile", "GroupSet.getOutfileFD", "GroupSet.resultWriteUnformattedHeader",
+			"GroupSet.resultWriteUnformatted", "GroupSet.WriteResult"}},
 	{ns: "Brush", pkgDir: "internal/color/brush", panics: true,
 		structs:     map[string][]string{},
 		appendCalls: map[string]int{"color.PaintWithAttr": 1},
@@ -268,6 +296,8 @@ func (p *trPkg) leanType(e ast.Expr) string {
 			return "GoLine"
 		case "regexp.Regexp":
 			return "GoRe"
+		case "os.File":
+			return "GoString" // an open file is the path it was opened on
 		case "gossh.ConnMetadata":
 			return "GoConnMeta"
 		case "gossh.Permissions":
@@ -354,6 +384,9 @@ func (p *trPkg) emitStruct(sb *strings.Builder, name string) {
 		if r.owner == name {
 			fmt.Fprintf(sb, "  %s : List (%s) := []\n", r.field, strings.Join(r.types, " × "))
 		}
+	}
+	if p.unit.effectOwner == name {
+		fmt.Fprintf(sb, "  %s : List %s := []\n", p.unit.effectField, p.unit.effectType)
 	}
 	fmt.Fprintf(sb, "  deriving Repr, DecidableEq\n\n")
 	fmt.Fprintf(sb, "instance : GoZero %s := ⟨{}⟩\n\n", name)
@@ -609,6 +642,9 @@ func (f *trFn) guards(e ast.Expr) []string {
 	case *ast.StarExpr:
 		return f.guards(v.X)
 	case *ast.SelectorExpr:
+		if f.p.optDeref(v.X) {
+			return append(f.guards(v.X), "(Option.isSome "+f.expr(v.X)+")") // nil pointer dereference
+		}
 		return f.guards(v.X)
 	case *ast.KeyValueExpr:
 		return f.guards(v.Value)
@@ -786,6 +822,9 @@ func (f *trFn) stmt1(ind string, s ast.Stmt, next cont) string {
 		if isLogging(call) || contains(f.p.unit.skip, src(call.Fun)) {
 			return next(ind)
 		}
+		if c, ef := f.effectOf(call); ef != nil {
+			return f.effectBind(ind, c, ef, nil, false, next)
+		}
 		if r, ok := f.p.unit.record[src(call.Fun)]; ok {
 			var vals []string
 			for i, a := range call.Args {
@@ -905,6 +944,9 @@ func (f *trFn) returnWithCalls(st *ast.ReturnStmt) []ast.Stmt {
 				need = true
 			}
 		}
+		if _, ef := f.effectOf(r); ef != nil {
+			need = true
+		}
 	}
 	if !need {
 		return nil
@@ -917,12 +959,19 @@ func (f *trFn) returnWithCalls(st *ast.ReturnStmt) []ast.Stmt {
 		if ok {
 			k = f.p.calleeKey(f.key, call)
 		}
-		if k == "" || !(f.p.canPanic[k] || f.p.sigs[k].ptrRecv) {
+		_, ef := f.effectOf(r)
+		if ef == nil && (k == "" || !(f.p.canPanic[k] || f.p.sigs[k].ptrRecv)) {
 			results = append(results, r)
 			continue
 		}
+		n := 0
+		if ef != nil {
+			n = len(ef.res) + 1
+		} else {
+			n = f.p.sigs[k].nResults
+		}
 		var lhs []ast.Expr
-		for i := 0; i < f.p.sigs[k].nResults; i++ {
+		for i := 0; i < n; i++ {
 			f.counter++
 			id := ast.NewIdent(fmt.Sprintf("ret_%d", f.counter))
 			lhs = append(lhs, id)
@@ -968,6 +1017,11 @@ func (f *trFn) assignTo(ind string, target ast.Expr, val string, k cont) string 
 
 func (f *trFn) assign(ind string, st *ast.AssignStmt, k cont) string {
 	define := st.Tok == token.DEFINE
+	if len(st.Rhs) == 1 && (st.Tok == token.DEFINE || st.Tok == token.ASSIGN) {
+		if call, ef := f.effectOf(st.Rhs[0]); ef != nil {
+			return f.effectBind(ind, call, ef, st.Lhs, define, k)
+		}
+	}
 	// comma-ok map read / call with several results
 	if len(st.Lhs) > 1 && len(st.Rhs) == 1 {
 		switch r := st.Rhs[0].(type) {
@@ -1062,6 +1116,71 @@ func (f *trFn) bindTuple(ind string, lhs []ast.Expr, define bool, rhs string, k 
 		tmps = append(tmps, fmt.Sprintf("_t%d", f.counter))
 	}
 	out := fmt.Sprintf("%slet (%s) := %s\n", ind, strings.Join(tmps, ", "), rhs)
+	var chain func(i int) cont
+	chain = func(i int) cont {
+		if i == len(lhs) {
+			return k
+		}
+		return func(ind string) string { return f.oneAssign(ind, lhs[i], define, tmps[i], chain(i+1)) }
+	}
+	return out + chain(0)(ind)
+}
+
+// effectOf: the call acts on the world (unit option `effects`)
+func (f *trFn) effectOf(e ast.Expr) (*ast.CallExpr, *trEffect) {
+	call, ok := e.(*ast.CallExpr)
+	if !ok {
+		return nil, nil
+	}
+	if ef, ok := f.p.unit.effects[src(call.Fun)]; ok {
+		return call, &ef
+	}
+	return nil, nil
+}
+
+// effectBind: an operation on the world.  `ext.ioErr` says whether it fails, given the operations that succeeded so far; an
+// operation that succeeds is appended to the receiver's history.  The results are the terms of the effect's table entry
+// followed by the error.
+func (f *trFn) effectBind(ind string, call *ast.CallExpr, ef *trEffect, lhs []ast.Expr, define bool, k cont) string {
+	if f.recv == "" || f.vtypes[f.recv] != f.p.unit.effectOwner {
+		trFail(call, "%s acts on the world outside a method of %s", src(call.Fun), f.p.unit.effectOwner)
+	}
+	fill := func(t string) string {
+		for i, a := range call.Args {
+			t = strings.ReplaceAll(t, fmt.Sprintf("%%%d", i), f.expr(a))
+		}
+		if sel, ok := call.Fun.(*ast.SelectorExpr); ok {
+			if id, ok := sel.X.(*ast.Ident); ok {
+				if _, isVar := f.lookup(id.Name); isVar {
+					t = strings.ReplaceAll(t, "%r", f.v(id.Name))
+				}
+			}
+		}
+		return t
+	}
+	f.counter++
+	h, e := fmt.Sprintf("_h%d", f.counter), fmt.Sprintf("_e%d", f.counter)
+	g := f.v(f.recv)
+	var res []string
+	for _, r := range ef.res {
+		res = append(res, fill(r))
+	}
+	out := fmt.Sprintf("%slet (%s, %s) := goEffect ext %s.%s (%s)\n", ind, h, e, g, f.p.unit.effectField, fill(ef.op))
+	out += fmt.Sprintf("%slet %s := { %s with %s := %s }\n", ind, g, g, f.p.unit.effectField, h)
+	res = append(res, e)
+	if len(lhs) == 0 {
+		return out + k(ind)
+	}
+	if len(lhs) != len(res) {
+		trFail(call, "%s has %d results, %d are bound", src(call.Fun), len(res), len(lhs))
+	}
+	var tmps []string
+	for _, r := range res {
+		f.counter++
+		t := fmt.Sprintf("_t%d", f.counter)
+		tmps = append(tmps, t)
+		out += fmt.Sprintf("%slet %s := %s\n", ind, t, r)
+	}
 	var chain func(i int) cont
 	chain = func(i int) cont {
 		if i == len(lhs) {
@@ -1534,6 +1653,9 @@ func (f *trFn) assignedOuter(body []ast.Stmt) []string {
 		case *ast.IncDecStmt:
 			mark(s.X)
 		case *ast.CallExpr:
+			if _, ef := f.effectOf(s); ef != nil && f.recv != "" {
+				set[f.recv] = true // the history of operations lives in the receiver
+			}
 			if f.isTranslatedMethodCall(s) {
 				sel := s.Fun.(*ast.SelectorExpr)
 				if f.p.methodSig(sel.Sel.Name).ptrRecv {
@@ -1724,8 +1846,13 @@ func (f *trFn) binop(n ast.Node, op, x, y string) string {
 }
 
 func (f *trFn) expr(e ast.Expr) string {
-	if t, ok := f.p.unit.subst[src(e)]; ok {
-		return t
+	if len(f.p.unit.subst) > 0 {
+		text := strings.ReplaceAll(src(e), " ", "")
+		for k, t := range f.p.unit.subst {
+			if strings.ReplaceAll(k, " ", "") == text {
+				return t
+			}
+		}
 	}
 	switch v := e.(type) {
 	case *ast.Ident:
@@ -1826,6 +1953,9 @@ func (f *trFn) expr(e ast.Expr) string {
 			if _, isVar := f.lookup(id.Name); !isVar {
 				trFail(v, "package-qualified name %s is not in the translated subset", src(v))
 			}
+		}
+		if f.p.optDeref(v.X) {
+			return "(goDeref " + f.expr(v.X) + ")." + v.Sel.Name
 		}
 		return f.expr(v.X) + "." + v.Sel.Name
 	case *ast.IndexExpr:
@@ -2182,6 +2312,9 @@ func (p *trPkg) emitFunc(sb *strings.Builder, key string) {
 	f.push()
 	params := "(ext : Ext)"
 	if recvField != nil {
+		if len(recvField.Names) == 0 {
+			recvField.Names = []*ast.Ident{ast.NewIdent("g")} // `func (*T) m()`: the translation names the receiver
+		}
 		f.recv = recvField.Names[0].Name
 		params += fmt.Sprintf(" (%s : %s)", f.declare(f.recv), sig.recv)
 		f.vtypes[f.recv] = sig.recv
@@ -2276,6 +2409,40 @@ func (p *trPkg) mapVarsOf(ftype *ast.FuncType, body *ast.BlockStmt) map[string]b
 	return m
 }
 
+// optDeref: e is `x.F` with F a field of pointer type whose target is one of the unit's optional structs — selecting a
+// field of e dereferences a pointer that may be nil
+func (p *trPkg) optDeref(e ast.Expr) bool {
+	sel, ok := e.(*ast.SelectorExpr)
+	if !ok || len(p.unit.optPtr) == 0 {
+		return false
+	}
+	if _, isIdent := sel.X.(*ast.Ident); !isIdent {
+		return false
+	}
+	for name := range p.unit.structs {
+		st, ok := p.structs[name]
+		if !ok {
+			continue
+		}
+		for _, fl := range st.Fields.List {
+			star, ok := fl.Type.(*ast.StarExpr)
+			if !ok {
+				continue
+			}
+			id, ok := star.X.(*ast.Ident)
+			if !ok || !contains(p.unit.optPtr, id.Name) {
+				continue
+			}
+			for _, n := range fl.Names {
+				if n.Name == sel.Sel.Name {
+					return true
+				}
+			}
+		}
+	}
+	return false
+}
+
 // bodyOf: the body of a translated function or lifted closure
 func (p *trPkg) bodyOf(key string) *ast.BlockStmt {
 	if lit, ok := p.lits[key]; ok {
@@ -2337,6 +2504,10 @@ func (p *trPkg) computeCanPanic() {
 				}
 			case *ast.SliceExpr:
 				found = true
+			case *ast.SelectorExpr:
+				if p.optDeref(v.X) {
+					found = true
+				}
 			case *ast.ForStmt:
 				if v.Init == nil && v.Post == nil {
 					found = true // `for cond {…}`: runs on fuel
